@@ -21,7 +21,7 @@ Definition apply_pyop (p : pyop) (cur : val) (a : earg) : res val :=
   match p, a with
   | PGetattr, EVal (VStr n) => getattr_val cur (VStr n)
   | PGetitem, _ => getitem_val cur a
-  | PCall, ECall vs => call_val cur vs
+  | PCall, ECall vs kw => call_kw cur vs kw
   | PBin o, EVal y => apply_binop o cur y
   | PUn o, _ => apply_unop o cur
   | _, _ => Unmodelled "arg-shape" end.
